@@ -2759,3 +2759,156 @@ def split_walrus_conjunctions(fn: ast.AST) -> int:
         return stmts
     block(fn.body)
     return count[0]
+
+
+def split_on_name_truth(fn: ast.AST) -> int:
+    """S20: `out.append((t or text, "ok" if t else "no"))`  ->  `if t: out.append((t, "ok"))` / `else: out.append((text, "no"))` --
+    a simple statement whose only conditional parts test the truth of one plain local name is split on that test."""
+    if not isinstance(fn, (ast.FunctionDef, ast.AsyncFunctionDef)):
+        return 0
+    count = [0]
+
+    class Pick(ast.NodeTransformer):
+        def __init__(self, name, truth):
+            self.name, self.truth = name, truth
+
+        def is_n(self, e):
+            return isinstance(e, ast.Name) and e.id == self.name
+
+        def visit_Lambda(self, n):
+            return n
+
+        def visit_BoolOp(self, n):
+            self.generic_visit(n)
+            if self.is_n(n.values[0]) and len(n.values) >= 2:
+                if isinstance(n.op, ast.Or):
+                    return n.values[0] if self.truth else (n.values[1] if len(n.values) == 2 else ast.BoolOp(op=ast.Or(), values=n.values[1:]))
+                return (n.values[1] if len(n.values) == 2 else ast.BoolOp(op=ast.And(), values=n.values[1:])) if self.truth else n.values[0]
+            return n
+
+        def visit_IfExp(self, n):
+            self.generic_visit(n)
+            if self.is_n(n.test):
+                return n.body if self.truth else n.orelse
+            if isinstance(n.test, ast.UnaryOp) and isinstance(n.test.op, ast.Not) and self.is_n(n.test.operand):
+                return n.orelse if self.truth else n.body
+            return n
+
+    def candidates(st):
+        names = set()
+        for x in ast.walk(st):
+            if isinstance(x, ast.BoolOp) and len(x.values) >= 2 and isinstance(x.values[0], ast.Name):
+                names.add(x.values[0].id)
+            elif isinstance(x, ast.IfExp):
+                t = x.test.operand if isinstance(x.test, ast.UnaryOp) and isinstance(x.test.op, ast.Not) else x.test
+                if isinstance(t, ast.Name):
+                    names.add(t.id)
+                else:
+                    return None
+        return names
+
+    def block(stmts):
+        out = []
+        for st in stmts:
+            if isinstance(st, FUNC):
+                out.append(st)
+                continue
+            for fld in ("body", "orelse", "finalbody"):
+                if getattr(st, fld, None):
+                    setattr(st, fld, block(getattr(st, fld)))
+            for h in getattr(st, "handlers", []) or []:
+                h.body = block(h.body)
+            if isinstance(st, ast.Expr) and isinstance(st.value, ast.Call) and isinstance(st.value.func, ast.Attribute) and st.value.func.attr == "append":
+                names = candidates(st)
+                n_if = sum(1 for x in ast.walk(st) if isinstance(x, (ast.IfExp, ast.BoolOp)))
+                if names and len(names) == 1 and n_if >= 2:
+                    nm = next(iter(names))
+                    if nm not in params_of(fn) and not stores_in([st], nm):
+                        a = Pick(nm, True).visit(copy.deepcopy(st))
+                        b = Pick(nm, False).visit(copy.deepcopy(st))
+                        new = ast.copy_location(ast.If(test=ast.Name(id=nm, ctx=ast.Load()), body=[a], orelse=[b]), st)
+                        ast.fix_missing_locations(new)
+                        out.append(new)
+                        count[0] += 1
+                        continue
+            out.append(st)
+        return out
+    fn.body = block(fn.body)
+    return count[0]
+
+
+def fold_tested_names(fn: ast.AST) -> int:
+    """Inside `if t:` (t a plain local not assigned in the branch) `t or x` is `t` and `a if t else b` is `a`; in the else branch the other way round."""
+    if not isinstance(fn, (ast.FunctionDef, ast.AsyncFunctionDef)):
+        return 0
+    esc = escaping_names(fn)
+    count = [0]
+
+    class Pick(ast.NodeTransformer):
+        def __init__(self, truth):
+            self.truth = truth
+
+        def visit_Lambda(self, n):
+            return n
+
+        def visit_BoolOp(self, n):
+            self.generic_visit(n)
+            v0 = n.values[0]
+            if isinstance(v0, ast.Name) and v0.id in self.truth and len(n.values) >= 2:
+                t = self.truth[v0.id]
+                count[0] += 1
+                rest = n.values[1] if len(n.values) == 2 else ast.BoolOp(op=type(n.op)(), values=n.values[1:])
+                if isinstance(n.op, ast.Or):
+                    return v0 if t else rest
+                return rest if t else v0
+            return n
+
+        def visit_IfExp(self, n):
+            self.generic_visit(n)
+            t = n.test
+            flip = False
+            if isinstance(t, ast.UnaryOp) and isinstance(t.op, ast.Not):
+                t, flip = t.operand, True
+            if isinstance(t, ast.Name) and t.id in self.truth:
+                count[0] += 1
+                return n.body if self.truth[t.id] != flip else n.orelse
+            return n
+
+    def block(stmts, truth):
+        truth = dict(truth)
+        for st in stmts:
+            if isinstance(st, FUNC):
+                continue
+            stored = {n.id for n in ast.walk(st) if isinstance(n, ast.Name) and isinstance(n.ctx, (ast.Store, ast.Del))}
+            if isinstance(st, (ast.Expr, ast.Assign, ast.Return, ast.AugAssign)) and truth and not (stored & set(truth)):
+                Pick(truth).visit(st)
+            if isinstance(st, ast.If):
+                t = st.test
+                flip = False
+                if isinstance(t, ast.UnaryOp) and isinstance(t.op, ast.Not):
+                    t, flip = t.operand, True
+                inner_t, inner_f = dict(truth), dict(truth)
+                if isinstance(t, ast.Name) and t.id not in esc:
+                    inner_t[t.id] = not flip
+                    inner_f[t.id] = flip
+                block(st.body, {k: v for k, v in inner_t.items()})
+                block(st.orelse, {k: v for k, v in inner_f.items()})
+            elif isinstance(st, (ast.For, ast.While, ast.AsyncFor)):
+                inner = {k: v for k, v in truth.items() if k not in stored}
+                block(st.body, inner)
+                block(st.orelse, inner)
+            elif isinstance(st, ast.Try):
+                inner = {k: v for k, v in truth.items() if k not in stored}
+                block(st.body, truth)
+                for h in st.handlers:
+                    block(h.body, inner)
+                block(st.orelse, inner)
+                block(st.finalbody, inner)
+            elif isinstance(st, (ast.With, ast.AsyncWith)):
+                block(st.body, truth)
+            for nm in stored:
+                truth.pop(nm, None)
+    block(fn.body, {})
+    if count[0]:
+        ast.fix_missing_locations(fn)
+    return count[0]
